@@ -4,7 +4,7 @@
    a sample of every run (the in-kernel sample), so the extraction itself is checked. *)
 From Coq Require Import List Ascii String Bool Arith NArith ZArith.
 Require Import Show.
-Require V1 V5 V6 V3 V11 V13 A1 D3 M6 M6b GS R2 R2u PU ACC2 PATH AR AR2 AR3 ARu CL DATE C9 TS3 CX SchemaDefs Schema_gen H12 H13 S11 D16 DEB U20 U20d.
+Require V1 V5 V6 V3 V11 V13 A1 D3 M6 M6b GS R2 R2u PU ACC2 PATH AR AR2 AR3 ARu CL DATE C9 TS3 CX SchemaDefs Schema_gen H12 H13 S11 D16 DEB U20 U20d U20L ARM.
 Import ListNotations.
 Open Scope string_scope.
 Open Scope list_scope.
@@ -451,8 +451,8 @@ Definition run_hash (op : string) (a : list str) : option str :=
 Definition run_clearsign (op : string) (a : list str) : option str :=
   let g n := nth_arg n a in
   if op =? "csmodel" then
-    (* keyring given (1/0), input, decoded (1/0), body, verified (1/0), signer id *)
-    let cs_decode := fun _ : str => if arg_bool (g 2) then Some (g 3, tt, ([] : str)) else None in
+    (* keyring given (1/0), input, decoded (1/0), body, verified (1/0), signer id, length of the rest clearsign.Decode handed back *)
+    let cs_decode := fun i : str => if arg_bool (g 2) then Some (g 3, tt, skipn (List.length i - arg_nat (g 6)) i) else None in
     let verify := fun (_ : unit) (_ : str) (_ : unit) => if arg_bool (g 4) then Some (g 5) else None in
     Some (match S11.new_reader unit str unit cs_decode verify (if arg_bool (g 0) then Some tt else None) (g 1) with
           | S11.RErr _ => lit "err"
@@ -462,6 +462,15 @@ Definition run_clearsign (op : string) (a : list str) : option str :=
               | Some ps => lit "ok signer=" ++ (match S11.r_signer _ r with Some e => hx e | None => lit "-" end) ++ sp1 ++ show_paras ps
               end
           end)
+  else if op =? "armorok" then
+    Some (if ARM.armor_ok (g 0) then lit "ok" else lit "malformed")
+  else if op =? "b64dec4" then
+    Some (match g 0 with
+          | [a0; b0; c0; d0] => match ARM.decode4 a0 b0 c0 d0 with Some n => show_nat n | None => lit "err" end
+          | _ => lit "bad-length"
+          end)
+  else if op =? "armorcrc" then
+    Some (hx (ARM.checksum_line (map N_of_ascii (g 0))))
   else None.
 
 (* ---- .deb loading and debsig: C14 C16 (tar, the decompressors and the signature check come in as oracle answers
@@ -557,9 +566,32 @@ Definition show_event (ev : U20.event) : str :=
 Definition show_fs (f : U20.fsys) : str :=
   show_list (fun kv => lit "( " ++ hx (fst kv) ++ sp1 ++ hx (snd kv) ++ lit " )")
             (sort_args (map (fun kv => (fst (fst kv) ++ lit "/" ++ snd (fst kv), snd kv)) f)).
+(* a file system with links (U20L): (dir, name, "F", content) / (dir, name, "L", "dir/name") *)
+Fixpoint lfs_of_args (a : list str) : U20L.lfsys :=
+  match a with
+  | d :: n :: k :: c :: r =>
+      ((d, n), if D3.seq k (lit "L")
+               then (match GS.split "/"%char c with [td; tn] => U20L.Link (td, tn) | _ => U20L.File c end)
+               else U20L.File c) :: lfs_of_args r
+  | _ => []
+  end.
+Definition show_lfs (f : U20L.lfsys) : str :=
+  show_list (fun kv => lit "( " ++ hx (fst kv) ++ sp1 ++ snd kv ++ lit " )")
+            (sort_args (map (fun kv => (fst (fst kv) ++ lit "/" ++ snd (fst kv),
+                                        match snd kv with
+                                        | U20L.File c => lit "F " ++ hx c
+                                        | U20L.Link t => lit "L " ++ hx (fst t ++ lit "/" ++ snd t)
+                                        end)) f)).
 Definition run_upload (op : string) (a : list str) : option str :=
   let g n := nth_arg n a in
-  if op =? "upload" then
+  if op =? "copylinks" then
+    (* control file name, number n of listed names, the names, then the initial file system with links: Copy into D *)
+    let n := arg_nat (g 1) in
+    let listed := firstn n (skipn 2 a) in
+    let f0 := lfs_of_args (skipn (2 + n) a) in
+    let '(f1, ok) := U20L.copies 40 SRC DST (listed ++ [g 0]) f0 in
+    Some (unwords [if ok then lit "ok" else lit "err"; show_lfs f1])
+  else if op =? "upload" then
     (* operation, control file name, failing primitive call (number, or "-"), number n of listed names, the names,
        then the initial file system as (dir, name, content) triples *)
     let n := arg_nat (g 3) in
